@@ -21,6 +21,7 @@ import (
 	amhelp "github.com/pancsta/asyncmachine-go/pkg/helpers"
 	am "github.com/pancsta/asyncmachine-go/pkg/machine"
 	"github.com/pancsta/asyncmachine-go/pkg/rpc/states"
+	"github.com/pancsta/asyncmachine-go/pkg/x/simhook"
 )
 
 var (
@@ -302,6 +303,18 @@ func (c *Client) ConnectingState(e *am.Event) {
 		timeout := c.ConnTimeout
 		if amhelp.IsDebug() {
 			timeout = 100 * time.Second
+		}
+		if conn, err, ok := simhook.Dial(ctx, "tcp4", c.Addr); ok &&
+			c.Conn.Load() == nil {
+			if ctx.Err() != nil {
+				return // expired
+			}
+			if err != nil {
+				mach.EvAdd1(e, ssC.Disconnected, nil)
+				AddErrNetwork(e, mach, err)
+				return
+			}
+			c.Conn.Store(&conn)
 		}
 		if c.Conn.Load() == nil && c.Opts.WebSocket != "" {
 			mach.Log("dialing WS %s", c.Addr)
